@@ -241,6 +241,50 @@ func LongDoc(t *rapid.T, p *Profile, label string) []byte {
 // Doc draws a document from the union of the shared generators.
 // maxTok bounds the soup length.
 func Doc(t *rapid.T, p *Profile, maxTok int, label string) ([]byte, string) {
+	doc, class := docKind(t, p, maxTok, label)
+	if rapid.IntRange(0, 5).Draw(t, label+"bytemut") == 0 {
+		return ByteMutate(t, p, doc, label+"bm"), class + "+bytes"
+	}
+	return doc, class
+}
+
+var hostileBytes = []byte("\xc3\xe3\xf0\x80\xbf\xff\xc2\xf4\x00\r\t \\`*_[]()<>\"'&#-~:|\n!=+.;/@^{}0a")
+
+// ByteMutate applies 1-3 byte-level edits (insert / replace / delete a byte, cut the document short, drop the
+// final line ending) to a structured document, the way a byte-level fuzzer would: hostile bytes end up at the
+// edges of constructs (last byte of a destination, inside a scheme, right after a marker), documents end in
+// the middle of a construct or without a final newline. The profile is re-enforced afterwards.
+func ByteMutate(t *rapid.T, p *Profile, doc []byte, label string) []byte {
+	out := append([]byte(nil), doc...)
+	n := rapid.IntRange(1, 3).Draw(t, label+"n")
+	for i := 0; i < n; i++ {
+		if len(out) == 0 {
+			out = append(out, hostileBytes[rapid.IntRange(0, len(hostileBytes)-1).Draw(t, label+"b")])
+			continue
+		}
+		pos := rapid.IntRange(0, len(out)).Draw(t, label+"pos")
+		switch rapid.IntRange(0, 6).Draw(t, label+"op") {
+		case 0, 1, 2: // insert
+			b := hostileBytes[rapid.IntRange(0, len(hostileBytes)-1).Draw(t, label+"b")]
+			out = append(out[:pos:pos], append([]byte{b}, out[pos:]...)...)
+		case 3: // replace
+			if pos < len(out) {
+				out[pos] = hostileBytes[rapid.IntRange(0, len(hostileBytes)-1).Draw(t, label+"b")]
+			}
+		case 4: // delete
+			if pos < len(out) {
+				out = append(out[:pos:pos], out[pos+1:]...)
+			}
+		case 5: // cut short
+			out = out[:pos]
+		default: // drop the final line ending(s)
+			out = bytes.TrimRight(out, "\r\n")
+		}
+	}
+	return p.Repair(out)
+}
+
+func docKind(t *rapid.T, p *Profile, maxTok int, label string) ([]byte, string) {
 	switch k := rapid.IntRange(0, 12).Draw(t, label+"kind"); {
 	case k == 12:
 		return LongDoc(t, p, label+"long"), "long"
